@@ -75,7 +75,10 @@ ROUTES = ('ctor', 'set_rules', 'file', 'ctor+own', 'set_rules+own',
           # ONE Rules object is handed to two enforcers with different
           # default rules; the other enforcer then merges more names in and
           # the caller empties its object
-          'set_rules-shared')
+          'set_rules-shared',
+          # two policy directories: the rule set lives in the FIRST, a file of
+          # the second is edited after the first load
+          'two-dirs-later-edited')
 
 
 def bound(tier):
@@ -227,6 +230,20 @@ def build(P, parse_rule, ruleset, cfg, route, w):
         if ruleset:
             shared.clear()
         return enf
+    if route == 'two-dirs-later-edited':
+        w.write('first.d/rules.yaml', world.dumps_policy(ruleset))
+        # (an empty rule set stays empty: the second directory then holds an
+        # empty file)
+        extra = {'other': '@'} if ruleset else {}
+        w.write('second.d/b.yaml', world.dumps_policy(extra))
+        conf = world.new_conf(w.root, policy_dirs=['first.d', 'second.d'],
+                              **overrides)
+        enf = P.Enforcer(conf, **kw)
+        for q in QUERIES:
+            enf.enforce(q, {}, {'roles': []})
+        w.write('second.d/b.yaml', world.dumps_policy(
+            {'other': '!'} if ruleset else {}))
+        return enf
     if route == 'file+late':
         in_file = {k: v for k, v in ruleset.items() if k != 'x'}
         w.write('policy.yaml', world.dumps_policy(in_file))
@@ -364,8 +381,8 @@ class _Fmt(__import__('logging').Handler):
 def _row(acc, P, parse_rule, ruleset, cfg, route, via):
     if cfg[0] == 'set_defaults' and route not in ('file', 'set_rules'):
         return
-    w = world.FileWorld() if route.startswith(('file', 'dir', 'reg')) \
-        else None
+    w = world.FileWorld() if route.startswith(('file', 'dir', 'reg',
+                                               'two-dirs')) else None
     # one route runs with the library's debug logging switched on
     debug = route == 'set_rules+own'
     if debug:
@@ -419,7 +436,8 @@ def _row(acc, P, parse_rule, ruleset, cfg, route, via):
 def replay(doc):
     from oslo_policy import _parser, policy as P
     c = doc['case']
-    w = world.FileWorld() if c['route'].startswith(('file', 'dir', 'reg')) \
+    w = world.FileWorld() if c['route'].startswith(('file', 'dir', 'reg',
+                                                    'two-dirs')) \
         else None
     try:
         enf = build(P, _parser.parse_rule, c['rules'], tuple(c['config']),
